@@ -43,6 +43,8 @@ ConfigsUniform == {[r |-> 0, expl |-> Uniform(FALSE)], [r |-> 0, expl |-> Unifor
                    [r |-> 1, expl |-> Uniform(FALSE)], [r |-> 1, expl |-> Uniform(TRUE)],
                    [r |-> -1, expl |-> Uniform(FALSE)]}
 ConfigsAll == {[r |-> r, expl |-> e] : r \in {0, 1}, e \in [Arrs -> BOOLEAN]} \cup {[r |-> -1, expl |-> Uniform(FALSE)]}
+\* the uniform configurations plus "one array explicit, the others implicit" and the reverse
+ConfigsSome == ConfigsUniform \cup {[r |-> r, expl |-> [k \in Arrs |-> (k = 1) = b]] : r \in {0, 1}, b \in BOOLEAN}
 ConfigsImplicitUnrooted == {[r |-> 0, expl |-> Uniform(FALSE)]}
 Init == /\ cfg \in Configs
         /\ arr = [k \in Arrs |-> NewArray(IF cfg.expl[k] THEN cfg.r ELSE -1, DefaultSet)]
